@@ -76,10 +76,9 @@ def build_tools():
 def tgen(areas=None):
     """Regenerate coq/Gen/*.v from /repo. Returns (ok, message); only errors of the
     given areas (Gen/Params<area>.v files the property depends on) count."""
-    if not os.path.exists(os.path.join(BIN, "goextract")):
-        rc, out = build_tools()
-        if rc != 0:
-            return False, "goextract build failed:\n" + out
+    rc, out = build_tools()   # always: specs files may have changed (the Go build cache makes this cheap)
+    if rc != 0:
+        return False, "goextract build failed:\n" + out
     with Lock("coq"):
         rc, out, _ = run([os.path.join(BIN, "goextract"), REPO, os.path.join(COQ, "Gen")], timeout=120)
     if rc == 0:
@@ -219,7 +218,7 @@ def run_engine(engine, outdir, seed, tier, extra=None, timeout=1800, race=False)
     return rc, out, wall
 
 
-def eval_shards(outdir, timeout=1500):
+def eval_shards(outdir, timeout=3000):
     """Compile every cases_<k>.v with coqc in parallel; return (mismatch indices, errors, n_shards)."""
     shards = sorted(glob.glob(os.path.join(outdir, "cases_*.v")), key=lambda p: int(re.search(r"cases_(\d+)\.v", p).group(1)))
     if not shards:
